@@ -330,7 +330,12 @@ static std::string handle(const std::string& cmd, const std::string& args) {
     o.ss = !wo.minimal_file && wo.cispep_records;
     o.conect = wo.conect_records;
     Structure ref = st;
-    if (!wo.link_records) ref.connections.clear();
+    {
+      std::vector<Connection> kept;
+      for (const Connection& c : ref.connections)
+        if (c.type == Connection::Disulf ? wo.ssbond_records : wo.link_records) kept.push_back(c);
+      ref.connections = kept;
+    }
     if (ref.spacegroup_hm.empty() && wo.cryst1_record) ref.spacegroup_hm = "P 1";
     std::string r = diff_report("structure changed by write+read", ps::dump(ref, o), ps::dump(st2, o));
     if (!r.empty()) return r + " text=" + hx(t1);
